@@ -1,3 +1,80 @@
 import Driver.Common
-/-! Driver for property C16 (stub: the model for this property is not built yet). -/
-def main : IO Unit := Driver.run (fun (s : Unit) _ => (s, "unimplemented")) ()
+import TxdbusModel.Obj.Tree
+/-!
+Driver for property C16 (exported-object tree).  One operation per line, one output line each.
+Strings travel as the hex of their code points (6 digits each, "-" = empty string).
+
+  reset                               -> ok
+  export <path> <payload> <iface>*    -> added <hdrPath> <argPath> <payload> <ifaces>
+  unexport <path>                     -> removed <hdrPath> <argPath> <ifaces> | keyerror
+  keys                                -> keys <paths>                       (insertion order)
+  call ping|introspect|managed|ordinary <path>
+        -> pong | intro <none|ifaces> <children> | managed <path>:<payload>:<ifaces>;… | unknown <path> | dispatch <payload>
+  orig introspect|managed <path>      -> the same with the pre-repair loops (F23 / F24), for the corpus
+
+A list prints as its items joined by ","; the empty list as "[]".
+-/
+open Txdbus.Obj Txdbus.Obj.Tree Driver
+
+namespace C16
+
+def strs (l : List Str) : String :=
+  if l.isEmpty then "[]" else ",".intercalate (l.map charsToHex)
+
+def entries (l : List Entry) : String :=
+  if l.isEmpty then "[]" else
+  ";".intercalate (l.map fun (k, ifs, pl) => charsToHex k ++ ":" ++ toString pl ++ ":" ++ strs ifs)
+
+def showSignal : Signal → String
+  | .interfacesAdded h a ifs pl => s!"added {charsToHex h} {charsToHex a} {pl} {strs ifs}"
+  | .interfacesRemoved h a ifs => s!"removed {charsToHex h} {charsToHex a} {strs ifs}"
+
+def showStep (r : StepResult) : String :=
+  if r.keyError then "keyerror" else " | ".intercalate (r.sent.map showSignal)
+
+def showReply : Reply → String
+  | .pong => "pong"
+  | .introspection ifs kids =>
+    "intro " ++ (match ifs with | none => "none" | some l => strs l) ++ " " ++ strs kids
+  | .managed es => "managed " ++ entries es
+  | .unknownObject p => "unknown " ++ charsToHex p
+  | .dispatch o => s!"dispatch {o.payload}"
+
+def call? : String → Option Call
+  | "ping" => some .ping
+  | "introspect" => some .introspect
+  | "managed" => some .getManagedObjects
+  | "ordinary" => some .ordinary
+  | _ => none
+
+def step (e : Exports) (line : String) : Exports × String :=
+  match words line with
+  | ["reset"] => ([], "ok")
+  | ["keys"] => (e, "keys " ++ strs (keys e))
+  | "export" :: p :: pl :: ifs =>
+    match hexToChars? p, pl.toNat?, ifs.mapM hexToChars? with
+    | some p, some pl, some ifs =>
+      let r := Tree.step e (.export { path := p, ifaces := ifs, payload := pl })
+      (r.exports, showStep r)
+    | _, _, _ => (e, "badinput")
+  | ["unexport", p] =>
+    match hexToChars? p with
+    | some p => let r := Tree.step e (.unexport p); (r.exports, showStep r)
+    | none => (e, "badinput")
+  | ["call", k, p] =>
+    match call? k, hexToChars? p with
+    | some k, some p => (e, showReply (handle e p k))
+    | _, _ => (e, "badinput")
+  | ["orig", "introspect", p] =>
+    match hexToChars? p with
+    | some p => (e, "kids " ++ strs (introspectChildrenOrig p e))
+    | none => (e, "badinput")
+  | ["orig", "managed", p] =>
+    match hexToChars? p with
+    | some p => (e, "managed " ++ entries (managedOrig p e))
+    | none => (e, "badinput")
+  | _ => (e, "badinput")
+
+end C16
+
+def main : IO Unit := Driver.run C16.step ([] : Exports)
